@@ -112,6 +112,7 @@ def run_property(prop, tier, seed, only=None, jobs=None, verbose=True):
         known_lines.append(f'KNOWN-FINDING: property={prop} {k["what"]}')
       else:
         unlisted.append(f)
+    downgraded = []
     for f in unlisted:
       path = core.write_replay(prop, c, f)
       reproduced = None
@@ -132,9 +133,16 @@ def run_property(prop, tier, seed, only=None, jobs=None, verbose=True):
       rp['replay_output'] = text
       with open(os.path.join(core.VERIF, path), 'w') as fh:
         json.dump(rp, fh, indent=1)
+      if getattr(c, 'refutation_needs_replay', False) and c.replay is not None and reproduced is False and not text.startswith('replay crashed'):
+        # incomplete theory (ghost sums): an unreplayed refutation is a failed proof, not a violation
+        o.failures = [g for g in o.failures if g is not f]
+        o.undecided = list(o.undecided) + [f'{f.obligation}: refuted by the solver over an incomplete theory (ghost sums) but not reproduced on the real code ({text[:160]})']
+        downgraded.append(f)
+        continue
       suffix = '' if reproduced else ' no-failing-input-found'
       violations.append(f'VIOLATION property={prop} replay={path}{suffix}')
       lines.append(f'  failed obligation: {c.name} :: {f.obligation} [{c.back_end}] {f.detail[:300]}')
+    unlisted = [f for f in unlisted if not any(f is d for d in downgraded)]
     if o.undecided:
       undecided += [f'{c.name}: {u}' for u in o.undecided]
     # after known filtering, a clause whose only failures are known counts as held
